@@ -70,6 +70,14 @@ def pickTimestamp (stmtTs : Option Int) (gen : Option (Unit → Int)) : Option I
   | some t => some t
   | none => gen.map (fun g => g ())
 
+/-- The EXECUTE frames one `Connection::execute_raw_with_consistency` call writes (connection.rs:1046-1148), as the
+timestamps they carry: the timestamp is picked ONCE, before the first frame; when the node answers UNPREPARED the
+statement is re-prepared and the frame is RE-SENT with `..execute_frame.parameters`, i.e. with the very same
+timestamp. `unprepared` = the node refused the first frame. -/
+def executeFrames (stmtTs : Option Int) (gen : Option (Unit → Int)) (unprepared : Bool) : List (Option Int) :=
+  let ts := pickTimestamp stmtTs gen
+  if unprepared then [ts, ts] else [ts]
+
 /-! ### sequential runs under a scripted clock (what the harness observes on one thread) -/
 
 /-- The scripted clock of `verif_hooks::clock`: each reading pops the next entry; when the script is
